@@ -613,6 +613,9 @@ func bandSubregion(c *mon.Case) {
 		avs = append(avs, s2.PointFromLatLng(s2.LatLngFromDegrees(h, lngC-W+2*W*float64(i)/float64(steps)).Normalized()))
 	}
 	delta := gen.LogUniform(r, 1e-15, 1e-6) * 180 / math.Pi
+	if r.Intn(2) == 0 {
+		delta = 0 // antipodal up to the rounding of sin and cos: the edge's longitude range is then the full circle
+	}
 	bvs := []s2.Point{
 		s2.PointFromLatLng(s2.LatLngFromDegrees(0, lngC-90+delta).Normalized()),
 		s2.PointFromLatLng(s2.LatLngFromDegrees(0, lngC+90-delta).Normalized()),
